@@ -398,6 +398,14 @@ func runHevc(c *runner.Ctx) {
 		for _, cd := range ppsCoded {
 			pl = append(pl, hx(cd.NAL))
 		}
+		if r.Chance(1, 8) {
+			// numNalus is a 16-bit count per array
+			pl = padList(pl, r.PickInt(31, 32, 33, 255, 256, 257))
+			if r.Bool() {
+				sl = padList(sl, r.PickInt(2, 15, 16, 17))
+			}
+			c.Seen("hevc.decconf", fmt.Sprintf("sps=%d,pps=%d", len(sl), len(pl)))
+		}
 		w := &witness{Codec: "hevc", Kind: "decconf", VPS: []string{hx(h265.VPS(spsRecs[0]))}, SPS: sl, PPS: pl, Want: spsCoded[0].Elems, Hazards: hevcSPSHazards(spsRecs[0])}
 		if r.Chance(1, 8) {
 			w.Size = 1
